@@ -215,7 +215,9 @@ func (t *frameTracer) touch(a common.Address, keys ...common.Hash) {
 	}
 }
 
-func newTracer(full bool) *frameTracer { return &frameTracer{pend: map[int]bool{}, fresh: map[int]bool{}, full: full} }
+func newTracer(full bool) *frameTracer {
+	return &frameTracer{pend: map[int]bool{}, fresh: map[int]bool{}, full: full}
+}
 
 func (t *frameTracer) CaptureStart(from, to common.Address, call bool, input []byte, gas uint64, value *big.Int) error {
 	return nil
